@@ -719,8 +719,9 @@ class ParserField:
                     # if no getter function
                     # dependant will not affect
                     field.add_dependant(self.name)
-                if dep not in dependencies:
-                    dependencies.append(dep)
+                if field.name not in dependencies:
+                    # results are keyed by the field's name (the key in `fields` is lower-cased when case-insensitive)
+                    dependencies.append(field.name)
                 if field.attname not in attr_dependencies:
                     attr_dependencies.append(field.attname)
             self.dependencies = set(dependencies)
